@@ -454,6 +454,8 @@ func init() {
 		if !ok {
 			return nil, false
 		}
+		// make the component known (so that it is framed) before replacing it
+		ex.comp(st, ex.eComp(sl.Elem()), ArraySort(SInt, ArraySort(SInt, ex.tm.SortOf(sl.Elem()))))
 		ex.havocComps(st, []string{ex.eComp(sl.Elem())})
 		return fr.freshResults(st, c.Signature(), "slices"), true
 	}
